@@ -8,6 +8,14 @@ pub mod reqwest {
 //# section: reqwest-error
     #[verifier::external_body]
     pub struct Error { _p: () }
+    impl Error {
+        #[verifier::external_body] pub fn is_request(&self) -> bool { unimplemented!() }
+        #[verifier::external_body] pub fn is_connect(&self) -> bool { unimplemented!() }
+        #[verifier::external_body] pub fn is_timeout(&self) -> bool { unimplemented!() }
+        #[verifier::external_body] pub fn is_status(&self) -> bool { unimplemented!() }
+        #[verifier::external_body] pub fn is_body(&self) -> bool { unimplemented!() }
+        #[verifier::external_body] pub fn is_decode(&self) -> bool { unimplemented!() }
+    }
 //# section: reqwest-client
     pub struct ReqModel {
         pub post: bool,
@@ -49,24 +57,32 @@ pub mod reqwest {
         // builds a request, performs no I/O
         #[verifier::external_body]
         pub fn post<U: IntoUrl>(&self, url: U) -> (b: RequestBuilder)
-            ensures b.model() == (ReqModel { post: true, url: url.url_view(), body: None, auth: None })
+            ensures b.model() == (ReqModel { post: true, url: url.url_view(), body: None, auth: None }), b.unsent()
         { unimplemented!() }
     }
     impl RequestBuilder {
         pub uninterp spec fn model(&self) -> ReqModel;
+        // ghost: this builder carries the (single) right to put its request on the wire; a clone does not
+        pub uninterp spec fn unsent(&self) -> bool;
         #[verifier::external_body]
         pub fn body<T: IntoBody>(self, body: T) -> (b: RequestBuilder)
-            ensures b.model() == (ReqModel { body: Some(body.body_view()), ..self.model() })
+            ensures b.model() == (ReqModel { body: Some(body.body_view()), ..self.model() }), b.unsent() == self.unsent()
+        { unimplemented!() }
+        #[verifier::external_body]
+        pub fn try_clone(&self) -> (c: Option<RequestBuilder>)
+            ensures c is Some ==> c->0.model() == self.model() && !c->0.unsent()
         { unimplemented!() }
         #[verifier::external_body]
         pub fn basic_auth<U: core::fmt::Display, P: core::fmt::Display>(self, username: U, password: Option<P>) -> (b: RequestBuilder)
             ensures b.model() == (ReqModel {
-                auth: Some((display(username), match password { Some(p) => Some(display(p)), None => None })), ..self.model() })
+                auth: Some((display(username), match password { Some(p) => Some(display(p)), None => None })), ..self.model() }),
+                b.unsent() == self.unsent()
         { unimplemented!() }
         // the only operation that puts a request on the wire; consumes the builder
         #[verifier::external_body]
         pub async fn send(self) -> (r: Result<Response, Error>)
             requires
+                self.unsent(),                          // [label: request-sent-once]
                 net_allowed(),                          // [label: net-allowed]
                 self.model().post,                      // [label: request-is-post]
                 self.model().url == want_url(),         // [label: request-url]
@@ -83,6 +99,13 @@ pub mod reqwest {
         pub fn error_for_status_ref(&self) -> (r: Result<&Response, Error>)
             ensures r is Err <==> 400 <= self.model().status < 600,
                     r is Ok ==> r->Ok_0 == self,
+        { unimplemented!() }
+        #[verifier::external_body]
+        pub fn status(&self) -> (s: u16) ensures s as int == self.model().status { unimplemented!() }
+        #[verifier::external_body]
+        pub fn error_for_status(self) -> (r: Result<Response, Error>)
+            ensures r is Err <==> 400 <= self.model().status < 600,
+                    r is Ok ==> r->Ok_0.model() == self.model(),
         { unimplemented!() }
         #[verifier::external_body]
         pub async fn text(self) -> (r: Result<String, Error>)
